@@ -18,7 +18,8 @@
 EXTENDS Naturals, Sequences, FiniteSets, SequencesExt, TLC
 
 OneWord == {"bool", "int", "int8", "int16", "int32", "int64", "uint", "uint8", "uint16", "uint32", "uint64",
-            "uintptr", "byte", "rune", "float32", "float64", "ptr", "map", "chan", "func"}
+            "uintptr", "byte", "rune", "float32", "float64", "ptr", "map", "chan", "chanrecv", "chansend", "func"}
+            \* chanrecv / chansend: directional channel types (<-chan T, chan<- T): one word like chan
 Kinds == OneWord \cup {"string", "slice", "iface"}
 NWords(k) == CASE k = "string" -> 2 [] k = "slice" -> 3 [] k = "iface" -> 2 [] OTHER -> 1
 
